@@ -44,13 +44,21 @@ func JA4Fingerprint(data *metadata.Metadata) (string, error) {
 }
 
 // JA3Fingerprint is a FingerprintFunc
-func JA3Fingerprint(data *metadata.Metadata) (string, error) {
+func JA3Fingerprint(data *metadata.Metadata) (fp string, err error) {
+	// tlsx indexes past the end of a truncated ClientHello (for example the
+	// first record of a hello that spans several TLS records)
+	defer func() {
+		if r := recover(); r != nil {
+			fp, err = "", fmt.Errorf("ja3: malformed client hello: %v", r)
+		}
+	}()
+
 	hellobasic := &tlsx.ClientHelloBasic{}
 	if err := hellobasic.Unmarshal(data.ClientHelloRecord); err != nil {
 		return "", fmt.Errorf("ja3: %w", err)
 	}
 
-	fp := ja3.DigestHex(hellobasic)
+	fp = ja3.DigestHex(hellobasic)
 	vlogf("ja3: %s", fp)
 	return fp, nil
 }
